@@ -181,6 +181,26 @@ fn gen(seed: u64, family: &str, tier: Tier) -> Case {
     gen_algorithm(&mut r, &mut w, true, true);
     gen_termination(&mut r, &mut w);
     let mut pc = gen_plugins(&mut r, &mut w);
+    if family == "clock" {
+        let rt = |r: &mut Rng| json!({"type": "query_runtime", "limit": *r.pick(&["00:00:01", "00:01:00", "00:10:00"]), "frequency": *r.pick(&[1u64, 2, 3, 7, 50])});
+        w.termination = match r.below(4) {
+            0 => rt(&mut r),
+            _ => {
+                let mut ms = vec![rt(&mut r)];
+                if r.chance(0.7) {
+                    ms.push(json!({"type": "iterations", "limit": r.below(30)}));
+                }
+                if r.chance(0.5) {
+                    ms.push(json!({"type": "solution_size", "limit": r.below(30)}));
+                }
+                if r.chance(0.2) {
+                    ms.push(rt(&mut r));
+                }
+                r.shuffle(&mut ms);
+                json!({"type": "combined", "models": ms})
+            }
+        };
+    }
     if family.starts_with("yens-known") {
         // directed at the two recorded Yen's-algorithm findings, so that every run of the check meets them
         w.algorithm = json!({"type": "yens", "k": r.range(2, 3), "underlying": {"type": "dijkstra"}});
@@ -242,7 +262,7 @@ fn gen(seed: u64, family: &str, tier: Tier) -> Case {
                 q["destination_edge"] = json!(r.below(ne));
             }
         }
-        if family == "malformed" && q.is_object() && r.chance(0.6) {
+        if (family == "malformed" || family == "clock") && q.is_object() && r.chance(if family == "clock" { 0.3 } else { 0.6 }) {
             let (mq, kind) = mutate(&mut r, &q, &w, &pc);
             kinds.push(kind);
             batch.push(mq);
@@ -261,6 +281,14 @@ fn gen(seed: u64, family: &str, tier: Tier) -> Case {
     let mut simcfg = gen_simcfg(&mut r);
     simcfg.max_steps = 1_500_000;
     simcfg.max_alloc_bytes = 256 << 20;
+    if family == "clock" {
+        // the clock jumps past the runtime budget while searches are in flight (a stalled machine, a suspended
+        // laptop): queries may be stopped by their limits at any loop turn, in any combination with the other
+        // limits - every one must still be answered, nothing may panic (round 6)
+        simcfg.faults = sim::F_CLOCK_JUMP;
+        simcfg.clock_fault_rate = *r.pick(&[0.002, 0.01, 0.05]);
+        simcfg.clock_jump_ns = *r.pick(&[1_500_000_000u64, 61_000_000_000, 3_600_000_000_000]);
+    }
     if family == "disk-full" {
         // the disk fills up (or the medium breaks) under the response file and stays that way: run() may fail,
         // it must still return
@@ -418,7 +446,20 @@ fn judge(case: &Case, obs: &Obs) -> (Vec<Violation>, BTreeMap<String, u64>, bool
             // are not compared with another instance's answer.
             let kinds: Vec<&str> = case.params.get("kinds").and_then(|k| k.as_array()).map(|a| a.iter().map(|k| k.as_str().unwrap_or("")).collect()).unwrap_or_default();
             let skip: Vec<u64> = batch.iter().enumerate().filter(|(i, _)| kinds.get(*i) == Some(&"degenerate-rates")).filter_map(|(_, q)| q.get("_qid").and_then(|x| x.as_u64())).collect();
-            let keep = |r: &Value| !r.get("request").and_then(|q| q.get("_qid")).and_then(|x| x.as_u64()).map_or(false, |q| skip.contains(&q));
+            // (family clock: a query that the jumping clock stopped - in the batch, not when run alone - is answered
+            // with a termination error; which limits that error names depends on the moment. Not compared.)
+            let mut skip_requests: Vec<Value> = vec![];
+            if case.family == "clock" {
+                for resp in run.iter() {
+                    if resp.get("error").and_then(|e| e.as_str()).map_or(false, |e| e.contains("exceeded runtime limit")) {
+                        if let Some(q) = resp.get("request") {
+                            skip_requests.push(q.clone());
+                            bump("stopped_by_the_jumping_clock", 1);
+                        }
+                    }
+                }
+            }
+            let keep = |r: &Value| !r.get("request").and_then(|q| q.get("_qid")).and_then(|x| x.as_u64()).map_or(false, |q| skip.contains(&q)) && !r.get("request").map_or(false, |q| skip_requests.contains(q));
             bump("isolation_skipped_degenerate_rates", skip.len() as u64);
             let expected: Vec<Value> = refs.iter().flat_map(|x| x.clone().unwrap()).filter(|r| keep(r)).collect();
             let run: Vec<Value> = run.iter().filter(|r| keep(r)).cloned().collect();
@@ -447,6 +488,10 @@ impl Check for C12 {
         f[31] = "disk-full";
         f[19] = "cli";
         f[37] = "cli";
+        f[3] = "clock";
+        f[11] = "clock";
+        f[27] = "clock";
+        f[35] = "clock";
         f.push("malformed"); // 41 entries: coprime with the worker count, so directed runs spread over all workers
         f
     }
